@@ -464,6 +464,11 @@ impl GitignoreBuilder {
             if line.starts_with("!") {
                 glob.is_whitelist = true;
                 line = &line[1..];
+                // A lone `!` negates the empty pattern, which matches
+                // nothing (and in particular re-includes nothing).
+                if line.is_empty() {
+                    return Ok(self);
+                }
             }
             if line.starts_with("/") {
                 // `man gitignore` says that if a glob starts with a slash,
